@@ -1,7 +1,9 @@
 (* Property C08: c2mir lays out and passes C data exactly as the x86-64 SysV ABI does.
    Only the property theorems, each closed by [exact] and followed by Print Assumptions. *)
 From Coq Require Import List ZArith.
-From MirV Require Import C08.CLayout C08.SysVLayout C08.LayoutProofs.
+From MirV Require Import C08.CLayout C08.SysVLayout C08.StepProofs C08.LayoutProofs.
+Import ListNotations.
+Local Open Scope Z_scope.
 
 (* every scalar kind has the psABI size (= alignment) *)
 Theorem scalar_size_eq_sysv : forall k, basic_type_size k = sv_scalar_size k.
@@ -12,3 +14,38 @@ Print Assumptions scalar_size_eq_sysv.
 Theorem enum_size_eq_sysv : forall lo hi, basic_type_size (enum_basic_type lo hi) = sv_enum_size lo hi.
 Proof. exact enum_size_eq. Qed.
 Print Assumptions enum_size_eq_sysv.
+
+(* For every well-formed declaration (any nesting, arrays, all scalar kinds, bit-fields of every
+   width incl. zero-width and unnamed ones, anonymous members, a trailing flexible array member)
+   c2mir's set_type_layout / update_field_layout / aux_set_type_align compute the psABI layout:
+   sizeof, _Alignof, offset and size of every named member (recursively, anonymous members
+   flattened), storage unit, bit offset and width of every bit-field.  [norm] only forgets where
+   c2mir notes zero-width bit-fields, which have no storage. *)
+Theorem layout_eq_sysv : forall t, wf_ty t = true ->
+  type_size (c2m_layout t) = sv_size (sysv_layout t) /\
+  align (c2m_layout t) = sv_align (sysv_layout t) /\
+  leaves (c2m_layout t) = sv_leaves (sysv_layout t) /\
+  map norm (mems (c2m_layout t)) = sv_mems (sysv_layout t).
+Proof. exact layout_eq_sysv_lemma. Qed.
+Print Assumptions layout_eq_sysv.
+
+(* non-vacuity: a declaration with every feature is well-formed, and its layout is the expected one:
+   struct { char a; int b:3; int :0; short s; struct { long x:33; unsigned char :0; char y; };
+            union { float f; long double g; } u; char c[3]; int fam[]; } *)
+Definition c08_example : ty :=
+  TAgg false
+    [ (MNamed, TBasic KChar); (MBits 3 true, TBasic KInt); (MBits 0 false, TBasic KInt);
+      (MNamed, TBasic KShort);
+      (MAnon, TAgg false [ (MBits 33 true, TBasic KLong); (MBits 0 false, TBasic KUChar); (MNamed, TBasic KChar) ]);
+      (MNamed, TAgg true [ (MNamed, TBasic KFloat); (MNamed, TBasic KLDouble) ]);
+      (MNamed, TArr 3 (TBasic KChar)); (MNamed, TFlex (TBasic KInt)) ].
+
+Example c08_example_wf : wf_ty c08_example = true.
+Proof. vm_compute. reflexivity. Qed.
+
+Example c08_example_layout :
+  (type_size (c2m_layout c08_example), align (c2m_layout c08_example),
+   map (fun l => (l_off l, l_bit l, l_sz l)) (leaves (c2m_layout c08_example)))
+  = (48, 16, [(0, -1, 1); (0, 8, 3); (4, -1, 2); (8, 0, 33); (13, -1, 1);
+              (16, -1, 16); (16, -1, 4); (16, -1, 16); (32, -1, 3); (36, -1, 4)]).
+Proof. vm_compute. reflexivity. Qed.
